@@ -171,5 +171,29 @@ m("C07", "C07-regcount-closure-dest-ignored", "R07-regcount:OP_CLOSURE", ("compi
 m("C07", "C07-regcount-forloop-var-ignored", "R07-regcount:OP_FORLOOP", ("compile.go", "\t\t\tOP_TAILCALL, OP_RETURN, OP_CLOSE:\n\t\t\t/* nothing to do */\n\t\tcase OP_FORPREP, OP_FORLOOP:", "\t\t\tOP_TAILCALL, OP_RETURN, OP_CLOSE, OP_FORLOOP:\n\t\t\t/* nothing to do */\n\t\tcase OP_FORPREP:"))
 m("C07", "C07-regcount-tforloop-ignored", "R07-regcount:OP_TFORLOOP", ("compile.go", "\t\t\tOP_TAILCALL, OP_RETURN, OP_CLOSE:\n\t\t\t/* nothing to do */", "\t\t\tOP_TAILCALL, OP_RETURN, OP_CLOSE, OP_TFORLOOP:\n\t\t\t/* nothing to do */"), ("compile.go", "\t\tcase OP_TFORLOOP:\n\t\t\t// the iterator call is laid out in R(A+3)..R(A+5), its results are R(A+3)..R(A+2+C)\n\t\t\tif reg := opGetArgA(inst) + 2 + intMax(opGetArgC(inst), 3); reg > maxreg {\n\t\t\t\tmaxreg = reg\n\t\t\t}\n", ""))
 m("C07", "C07-regcount-self-only-a", "R07-regcount:OP_SELF", ("compile.go", "\t\t\tif reg := opGetArgA(inst) + 1; reg > maxreg {", "\t\t\tif reg := opGetArgA(inst); reg > maxreg {"))
+
+m("C20", "C20-openpackage-fresh-loaded", "R20-order:OpenPackage:keeps-existing-_LOADED", ("loadlib.go", "\tloaded := L.FindTable(L.Get(RegistryIndex).(*LTable), \"_LOADED\", 1)\n\tL.SetField(packagemod, \"loaded\", loaded)\n", "\tloaded := L.NewTable()\n\tL.SetField(packagemod, \"loaded\", loaded)\n\tL.SetField(L.Get(RegistryIndex), \"_LOADED\", loaded)\n"))
+m("C15", "C15-format-flags-subset", "R15-flags:defaultFormat:probes-all-printf-flags", ("utils.go", "\tfor i := 0; i < 128; i++ {\n\t\tif f.Flag(i) {", "\tfor i := 33; i < 128; i++ {\n\t\tif f.Flag(i) {"))
+m("C16", "C16-parsenumber-trimspace", "R16-onereader:parseNumber:c-locale-blanks-only", ("utils.go", "number = strings.Trim(number, \" \\t\\n\\r\\f\\v\")", "number = strings.TrimSpace(number)"))
+
+m("C18", "C18-sort-whole-array-part", "R18-arrayowner:reader:tableSort", ("tablelib.go", "tbl.array[:tbl.Len()]}", "tbl.array}"))
+m("C18", "C18-maxn-from-array-size", "R18-arrayowner:reader:tableMaxN", ("tablelib.go", "\tL.Push(LNumber(L.CheckTable(1).MaxN()))", "\tif tb := L.CheckTable(1); len(tb.array) > 0 && tb.MaxN() <= len(tb.array) {\n\t\tL.Push(LNumber(len(tb.array)))\n\t\treturn 1\n\t}\n\tL.Push(LNumber(L.CheckTable(1).MaxN()))"))
+m("C04", "C04-callr-passes-handler", "R04-callself:(*LState).callR:passes-called-object", ("state.go", "\t\tTailCall:   0,\n\t}, lv, meta)\n\tif ls.G.MainThread == nil {", "\t\tTailCall:   0,\n\t}, fn, meta)\n\tif ls.G.MainThread == nil {"))
+m("C14", "C14-repl-lookahead-too-strict", "R14-repl:flagScanner.Next:lookahead+1", ("utils.go", "if fs.Pos < (fs.Length-1) && fs.str[fs.Pos+1] == fs.flag {", "if fs.Pos < (fs.Length-2) && fs.str[fs.Pos+1] == fs.flag {"))
+m("C14", "C14-repl-lookahead-unguarded", "R14-repl:flagScanner.Next:lookahead+1", ("utils.go", "if fs.Pos < (fs.Length-1) && fs.str[fs.Pos+1] == fs.flag {", "if fs.Pos < fs.Length && fs.str[fs.Pos+1] == fs.flag {"))
+
+m("C06", "C06-resume-error-skips-settop", "R06-resumeapi:Resume:restores-resumer-stack", ("state.go", "\thaserror := LVIsFalse(ls.Get(top + 1))\n", "\tif LVIsFalse(ls.Get(top+1)) && ls.GetTop() == top+2 {\n\t\treturn ResumeError, newApiError(ApiErrorRun, ls.Get(top+2)), nil\n\t}\n\thaserror := LVIsFalse(ls.Get(top + 1))\n"))
+
+m("C12", "C12-wrapped-dead-thread-push-on-full-registry", "R12-deadpush:threadRun$1:push", ("vm.go", "\t\t\t\t\t// the dead thread's registers are of no use any more and may be full\n\t\t\t\t\tL.SetTop(0)\n", ""))
+
+m("C05", "C05-traceback-name-index-unguarded", "R05-tracesafe:(*LState).formattedFrameFuncName:index", ("state.go", "\tif name == \"\" || (name[0] != '(' && name[0] != '<') { // t[\"\"]() records an empty call-site name", "\tif name[0] != '(' && name[0] != '<' {"))
+
+m("C01", "C01-kmv-into-settable-object", "R01-kmv:compileAssignStmtLeft:kmv", ("compile.go", "\t\t\t\tcompileExprWithMVPropagation(context, st.Object, &reg, &ac.ec.reg)", "\t\t\t\tcompileExprWithKMVPropagation(context, st.Object, &reg, &ac.ec.reg)"))
+m("C01", "C01-kmv-into-test-register", "R01-kmv:compileBranchCondition:kmv", ("compile.go", "\tcompileExprWithMVPropagation(context, expr, &reg, &a)\n\tcode.AddABC(OP_TEST, a, 0, 0^flip, sline(expr))", "\tcompileExprWithKMVPropagation(context, expr, &reg, &a)\n\tcode.AddABC(OP_TEST, a, 0, 0^flip, sline(expr))"))
+
+m("C08", "C08-long-comment-falls-into-line-skip", "R08-comment:skipComments:long-comment-ends-at-bracket", ("parse/lexer.go", "\t\t\t\treturn sc.Error(buf.String(), \"invalid multiline comment\")\n\t\t\t}\n\t\t\treturn nil\n", "\t\t\t\treturn sc.Error(buf.String(), \"invalid multiline comment\")\n\t\t\t}\n"))
+m("C02", "C02-initcallframe-copy-keeps-top", "R02-copies:LState.initCallFrame", ("state.go", "func (ls *LState) initCallFrame(cf *callFrame) { // +inline-start\n\tif cf.Fn.IsG {\n\t\tls.reg.SetTop(cf.LocalBase + cf.NArgs)", "func (ls *LState) initCallFrame(cf *callFrame) { // +inline-start\n\tif cf.Fn.IsG {\n\t\tif top := cf.LocalBase + cf.NArgs; top > ls.reg.top {\n\t\t\tls.reg.SetTop(top)\n\t\t}"))
+
+m("C17", "C17-findlocal-queries-next-pc", "R17-scope:findLocal:queries-at-Pc-1", ("state.go", "fn.LocalName(no, frame.Pc-1)", "fn.LocalName(no, frame.Pc)"))
 if __name__ == "__main__":
     main()
